@@ -16,18 +16,33 @@ def run(F, rep):
     # ------------------------------------------------------------------ C1
     rep.rule('C19.C1', 'the emptiness predicate used by Model::clean consults every attribute of the documented definition (component: variables, resets, child components, math, import, name, id; units: import, name, id, unit count)')
     th = F.fn1('libcellml::traverseHierarchyAndRemoveIfEmpty')
-    rets = [r for r in th.walk() if r.get('k') == 'Return' and r.get('c')]
-    if len(rets) != 1:
-        raise AnalysisBroken('traverseHierarchyAndRemoveIfEmpty: %d returns' % len(rets))
-    called = {c.get('fn') for c in walk(rets[0]) if c.get('k') == 'Call'}
-    from engines import predicate_body
-    for c_ in list(walk(rets[0])):
-        if c_.get('k') == 'Call' and not c_.get('opc'):
-            pb_ = predicate_body(F, c_)
-            if pb_ is not None:
-                called |= {x.get('fn') for x in walk(pb_[1]) if x.get('k') == 'Call'}
-    for g in ('variableCount', 'resetCount', 'componentCount', 'math', 'isImport', 'name', 'id'):
-        rep.check(g in called, 'C19.C1', 'component|' + g, th.where(rets[0]), 'a component is declared empty without looking at %s(): clean() would remove a component that still has it' % g, 'consulted')
+    from engines import predicate_body, facts_x as _fx19
+    rets = [r for r in th.walk() if r.get('k') == 'Return' and r.get('c') and th.enclosing_lambda(r) is None]
+    pos = [r for r in rets if not (r['c'][0].get('k') == 'Bool' and not r['c'][0].get('v'))]
+    if not pos:
+        raise AnalysisBroken('traverseHierarchyAndRemoveIfEmpty has no return that can be true')
+    for k_, r in enumerate(pos, 1):
+        called = {c.get('fn') for c in walk(r) if c.get('k') == 'Call'}
+        for c_ in list(walk(r)):
+            if c_.get('k') == 'Call' and not c_.get('opc'):
+                pb_ = predicate_body(F, c_)
+                if pb_ is not None:
+                    called |= {x.get('fn') for x in walk(pb_[1]) if x.get('k') == 'Call'}
+        # what the path to this return has already established (guards written as early returns, named locals)
+        ftxt = ' '.join(t for t, tr in (_fx19(F, th, r) or set()))
+        for g in ('variableCount', 'resetCount', 'componentCount', 'math', 'isImport', 'name', 'id'):
+            rep.check(g in called or ('%s()' % g) in ftxt, 'C19.C1', 'component|%s%s' % (g, '' if len(pos) == 1 else '|return#%d' % k_), th.where(r), 'a component is declared empty without looking at %s(): clean() would remove a component that still has it' % g, 'consulted')
+    # the walk reaches every component: the descent into the children comes before any verdict (an early `return false` for, say, an imported
+    # component leaves everything encapsulated under it uncleaned)
+    desc = [c for c in th.walk() if c.get('k') == 'Call' and not c.get('opc') and th.key in F.callee_keys(c)]
+    if not desc:
+        raise AnalysisBroken('traverseHierarchyAndRemoveIfEmpty no longer recurses into the child components')
+    dloops = [a for a in th.ancestors(desc[0]) if a.get('k') in ('For', 'While', 'RangeFor', 'Do')]
+    head = role(dloops[-1], 'cond') if dloops and role(dloops[-1], 'cond') is not None else desc[0]
+    early = [r for r in rets if not th.cfg().node_dominates(head, r)]
+    rep.check(not early, 'C19.C1', 'component|children cleaned before the verdict', th.where(early[0] if early else desc[0]),
+              'traverseHierarchyAndRemoveIfEmpty can return at line %s before it has descended into the child components: empty components below such a component are never removed' % (early[0].get('l') if early else '?'),
+              'the loop over the children dominates every return')
     cl = F.fn1('libcellml::Model::clean')
     ru = [c for c in cl.walk() if c.get('k') == 'Call' and c.get('fn') == 'removeUnits']
     if len(ru) != 1:
@@ -234,6 +249,18 @@ def run(F, rep):
     from engines import rule_visit_all
     rule_visit_all(F, rep, 'C19.Y1', lambda g: g.file.endswith(('/utilities.cpp', '/model.cpp')), 10, 'utilities.cpp and model.cpp')
 
+    # ------------------------------------------------------------------ B1: who is whose parent is decided by identity
+    rep.rule('C19.B1', 'the hierarchy predicates from which interface types are derived (isEntityChildOf, areEntitiesSiblings) decide by the identity of parents: nothing they call reaches a structural comparison (equals/doEquals). '
+                       'The containment lookups of ComponentEntity fall back to equals() when the object itself is not a child, so "is a child of" asked through them is also true for a component that merely has a look-alike child, '
+                       'and fixVariableInterfaces() then "fixes" an equivalence that is not reachable at all')
+    eqs = {k for k, g_ in F.funcs.items() if g_.name in ('equals', 'doEquals')}
+    ctrl = [g_ for g_ in F.funcs.values() if g_.name == 'containsComponent' and any(p_['t'].startswith('const std::shared_ptr<libcellml::Component>') for p_ in g_.params)]
+    if not ctrl or not (F.reach([ctrl[0].key]) & eqs):
+        raise AnalysisBroken('C19.B1: the control case vanished (ComponentEntity::containsComponent(ptr) no longer reaches equals()): the reachability test cannot be trusted')
+    for nm in ('isEntityChildOf', 'areEntitiesSiblings'):
+        g_ = F.fn1('libcellml::' + nm)
+        hit = sorted(F.funcs[k].short for k in (F.reach([g_.key]) & eqs))
+        rep.check(not hit, 'C19.B1', nm, g_.where(), '%s reaches %s: the answer depends on what entities look like, not on where they are' % (nm, hit[:3]), 'identity of parent() only')
 
 
 def _exits_after(f, loop, call):
